@@ -2,10 +2,10 @@
 """Write seeded/MATRIX.md and refresh seeded/*/meta.json from a matrix run (tools/seed_matrix.sh output)."""
 import json, os, re, sys
 ROOT = os.path.dirname(os.path.dirname(os.path.abspath(__file__)))
-lines = [l for l in open(sys.argv[1]) if re.match(r"C\d\d[a-h] C\d\d rc=", l)]
+lines = [l for l in open(sys.argv[1]) if re.match(r"C\d\d[a-j] C\d\d rc=", l)]
 rows = []
 for l in lines:
-    m = re.match(r"(C\d\d[a-h]) (C\d\d) rc=(\d+)(.*)", l)
+    m = re.match(r"(C\d\d[a-j]) (C\d\d) rc=(\d+)(.*)", l)
     seed, prop, rc, rest = m.group(1), m.group(2), int(m.group(3)), m.group(4)
     sigs = sorted(set(re.findall(r"signature=(C\d\d/\S+)", rest)))
     rows.append((seed, prop, rc, sigs))
@@ -13,7 +13,7 @@ for l in lines:
 CONF = {}
 if len(sys.argv) > 2:
     for l in open(sys.argv[2]):
-        m = re.match(r"seeded/(C\d\d[a-h])/? apply=(\S+) tests=\[(.*?)\] demo_patched=(\d+) demo_clean=(\d+)", l)
+        m = re.match(r"seeded/(C\d\d[a-j])/? apply=(\S+) tests=\[(.*?)\] demo_patched=(\d+) demo_clean=(\d+)", l)
         if m:
             CONF[m.group(1)] = {"apply": m.group(2), "tests": m.group(3), "demo_patched": int(m.group(4)), "demo_clean": int(m.group(5))}
 
